@@ -209,6 +209,22 @@ func runC11(c C11Case, o *run.Obs) error {
 						}
 					}
 				}
+				if (ri+len(c.Workers))%2 == 0 {
+					// ... and it has been persisted once before (whatever a tree sets up lazily at its first flush
+					// exists by the time it is cloned), then modified again
+					if _, err := w.Persist(parent); err != nil {
+						o.Label("aborted:base-failure")
+						return nil
+					}
+					for j := 0; j < 3; j++ {
+						if ki, ok := core.AbsentKey(parent.Model, len(w.Pool), ri*5+j*11+1); ok {
+							if err := w.Insert(parent, ki, j+1); err != nil {
+								o.Label("aborted:base-failure")
+								return nil
+							}
+						}
+					}
+				}
 				ps.t = parent
 				ps.last = parent
 				parents[ri] = ps
